@@ -8,6 +8,7 @@
  * examples/core/coding.c on a linear buffer).
  */
 #include <vector>
+#include <string>
 #include <cstring>
 #include <cstdlib>
 #include <sys/uio.h>
@@ -51,6 +52,58 @@ static ssize_t enc_wrap(mpt::encode_state *st, const struct iovec *to, const str
 	return r;
 }
 
+/* protected members made readable (like Q in c13_cxx.cpp) */
+class EA : public mpt::encode_array
+{
+public:
+	EA(enc_t e) : mpt::encode_array(e) { }
+	const mpt::encode_state &state() const { return _state; }
+	const mpt::array &store() const { return _d; }
+};
+/*
+ * shift(0): "move used segment to buffer front".  Model: `front` released bytes sit before the
+ * finished + pending bytes; the call reports whether there was anything to drop, afterwards the
+ * array holds exactly the finished + pending bytes, unchanged.
+ */
+static void compact(EA &arr, int fmt, size_t &front)
+{
+	const mpt::encode_state &st = arr.state();
+	size_t keep = st.done + st.scratch, len = arr.store().length();
+	char kb[128];
+	snprintf(kb, sizeof(kb), "cxx:encode_array:%s:shift0-", rc_name[fmt]);
+	std::string k(kb);
+	VF_CHECK(len == front + keep, (k + "model-length").c_str(), "before shift(0): array length %zu, model %zu released + %zu finished + %zu pending", len, front, st.done, st.scratch);
+	std::vector<uint8_t> snap;
+	if (keep) { const uint8_t *b = static_cast<const uint8_t *>(arr.store().base()); snap.assign(b + front, b + len); }
+	size_t done = st.done, scratch = st.scratch;
+	vf_at("encode_array::shift(0)");
+	vf_count("encode_array::shift(0)", 1);
+	bool ok = arr.shift(0);
+	vf_log("%s shift(0) with %zu released in front, %zu finished, %zu pending = %d", rc_name[fmt], front, done, scratch, (int) ok);
+	VF_CHECK(ok == (front > 0), (k + "return").c_str(), "shift(0) = %d with %zu released bytes in front (%zu finished, %zu pending)", (int) ok, front, done, scratch);
+	VF_CHECK(st.done == done && st.scratch == scratch, (k + "state-changed").c_str(), "shift(0) changed done %zu -> %zu / scratch %zu -> %zu", done, st.done, scratch, st.scratch);
+	size_t nlen = arr.store().length();
+	VF_CHECK(nlen == keep + (ok ? 0 : front), (k + "length").c_str(), "after shift(0)=%d: array length %zu, expected %zu (%zu released, %zu finished, %zu pending)",
+	         (int) ok, nlen, keep + (ok ? 0 : front), front, done, scratch);
+	if (keep) {
+		const uint8_t *b = static_cast<const uint8_t *>(arr.store().base());
+		size_t off = ok ? 0 : front;
+		VF_CHECK(b && !memcmp(b + off, snap.data(), keep), (k + "content").c_str(),
+		         "shift(0) with %zu released, %zu finished, %zu pending bytes: kept bytes changed: before=%s after=%s", front, done, scratch,
+		         vf_hex(hx1, sizeof(hx1), snap.data(), keep), vf_hex(hx2, sizeof(hx2), b ? b + off : snap.data(), keep));
+	}
+	mpt::span<const uint8_t> d = arr.data();
+	VF_CHECK(d.size() >= 0 && (size_t) d.size() == done && (!done || !memcmp(d.begin(), snap.data(), done)), (k + "data").c_str(),
+	         "after shift(0) data() has %ld bytes / other content, expected the %zu finished bytes", (long) d.size(), done);
+	vf_count("monitor:shift0-compare", 1);
+	if (ok) {
+		vf_count("state:shift0-with-released-bytes-in-front", 1);
+		if (scratch) vf_count("state:shift0-with-open-block", 1);
+		vf_count(keep > front ? "state:shift0-kept-longer-than-released(overlap)" : "state:shift0-kept-not-longer-than-released", 1);
+		front = 0;
+	} else vf_count("state:shift0-nothing-released", 1);
+}
+
 uint64_t vf_cases(void) { return vf_thorough ? 400000 : 16000; }
 
 static size_t fill_message(vf_rng *r, int fmt, uint8_t *m, size_t lo, size_t hi)
@@ -76,10 +129,11 @@ void vf_case(uint64_t, vf_rng *r)
 	int big = !history && vf_chance(r, 1, 150);
 	std::vector<uint8_t> expect_frames;
 	size_t released = 0;          /* finished bytes handed to the consumer with shift() */
+	size_t front = 0;             /* of these: still in front of the array buffer (not yet dropped by shift(0)) */
 	bool nontrivial = false;
 
 	wrap_real = enc_fn[fmt];
-	mpt::encode_array arr(enc_wrap);
+	EA arr(enc_wrap);
 	vf_fp_u64(0xC01C00 + fmt + 16 * history);
 	size_t done_prev = 0;
 	if (big) nmsg = 1;
@@ -128,6 +182,8 @@ void vf_case(uint64_t, vf_rng *r)
 			np = 0;
 		}
 		for (size_t p = 0; p < np; p++) {
+			/* in the middle of a message: drop released bytes while data is pending */
+			if (p && vf_chance(r, 1, front ? 3 : 40)) compact(arr, fmt, front);
 			/* caller that advances by the returned size */
 			size_t l = cut[p] - pos;
 			const uint8_t *ptr = msg[i] + pos;
@@ -195,9 +251,12 @@ void vf_case(uint64_t, vf_rng *r)
 			         && (done == k || !memcmp(d2.begin(), expect_frames.data() + released + k, done - k)), key(fmt, "shift-result"),
 			         "after shift(%zu) of %zu finished bytes data() has %ld bytes / other content", k, done, (long) d2.size());
 			released += k;
+			front += k;
 			done_prev = done - k;
-			if (released >= 256) vf_count("state:256+-released-bytes-in-front", 1);
+			if (front >= 256) vf_count("state:256+-released-bytes-in-front", 1);
 		}
+		/* between messages (no open block) */
+		if (vf_chance(r, 1, front ? 3 : 12)) compact(arr, fmt, front);
 	}
 	/* library decoder over the finished bytes, linear buffer with slack in front */
 	{
